@@ -704,15 +704,27 @@ fn edge_cases() -> Vec<Case> {
         for define in 0..4 {
             for want in [1i64, 5] {
                 for second_first in 0..2 {
-                    let holder = Item::If(vec![(E::Bool(live == 1), vec![m(0x81), label("p"), Item::Sub("p".into(), "q".into(), int(1)), m(0x82)])], None);
+                  // parent_outside: the parent label `p` stands before the chain, only `.q` is declared inside the arm
+                  for parent_outside in 0..2 {
+                    let holder = if parent_outside == 1 {
+                        Item::If(vec![(E::Bool(live == 1), vec![m(0x81), Item::Sub("p".into(), "q".into(), int(1)), m(0x82)])], None)
+                    } else {
+                        Item::If(vec![(E::Bool(live == 1), vec![m(0x81), label("p"), Item::Sub("p".into(), "q".into(), int(1)), m(0x82)])], None)
+                    };
                     let second = Item::If(vec![(eq(v("p.q"), int(want)), vec![m(0x83)])], Some(vec![m(0x84)]));
                     let mut prog = vec![m(0x80)];
                     if second_first == 1 {
                         prog.push(second.clone());
                     }
+                    if parent_outside == 1 {
+                        prog.push(label("p"));
+                    }
                     prog.push(holder);
                     if second_first == 0 {
                         prog.push(second);
+                    }
+                    if parent_outside == 1 {
+                        prog.push(Item::Use("p.q".into()));
                     }
                     prog.push(m(0xff));
                     let defines = match define {
@@ -721,7 +733,8 @@ fn edge_cases() -> Vec<Case> {
                         3 => vec![("p".to_string(), DV::Int(1))],
                         _ => vec![],
                     };
-                    out.push(Case { family: "edge", coord: format!("hier live{} define{} want{} second_first{}", live, define, want, second_first), prog, defines });
+                    out.push(Case { family: "edge", coord: format!("hier live{} define{} want{} second_first{} parent_outside{}", live, define, want, second_first, parent_outside), prog, defines });
+                  }
                 }
             }
         }
@@ -812,9 +825,10 @@ fn drive_disagreement(expected: &Value, d: &run::DriveObs) -> Option<&'static st
             _ => Some("wrong-bits"),
         }
     } else if d.ok && !d.has_errors && d.panicked.is_none() {
-        // (an error diagnostic counts as failure here, as in-process; whether `drive` may return Ok and
-        // write the output file next to an error diagnostic is C03's question, counted below)
         Some("accepted")
+    } else if d.panicked.is_none() && (d.ok || d.written.iter().any(|(n, _)| n == "out.txt")) {
+        // "is an error": the run must fail as a whole; a diagnostic printed next to delivered output is not one
+        Some("error-diagnosed-but-output-delivered")
     } else {
         None
     }
